@@ -35,6 +35,7 @@ func init() {
 	register(rpcScn{})
 	register(cutScn{})
 	register(hostileScn{})
+	register(clientScn{})
 }
 
 // RunOpts are per-execution options that do not belong to the plan.
